@@ -776,6 +776,21 @@ func c18Build(cs c18Case) (*c18B, *document.TemplateData, string) {
 			b, why = c18BuildImage(cs)
 			td = c18ImageData(cs)
 		}
+		// the data set that is rendered is one of two the caller derived from a common set with Merge; the other
+		// one gets more and other values afterwards.  Nothing of that may show in this render.
+		if td != nil {
+			common := td
+			td = document.NewTemplateData()
+			td.Merge(common)
+			sibling := document.NewTemplateData()
+			sibling.Merge(common)
+			for _, n := range []string{"name", "other", "missing", "reviewer", "a", "b"} {
+				sibling.SetVariable(n, "LEAKED-FROM-A-SIBLING-DATA-SET")
+			}
+			sibling.SetList("items", []interface{}{map[string]interface{}{"a": "LEAK", "b": "LEAK"}})
+			sibling.SetCondition("c", true)
+			common.SetVariable("later", "LEAKED-FROM-THE-COMMON-SET")
+		}
 	}); p != "" {
 		return nil, nil, "build panic: " + p
 	}
